@@ -179,3 +179,24 @@ def rootKids (p : RootP) : List String :=
   rep p.nProblems "planningProblem"
 
 end CR.XmlW
+
+/-! ### full element trees of the innermost builders (for the complete-subtree theorems of C03) -/
+namespace CR.XmlW
+open CR.Xsd
+
+def leaf (n : String) (t : Str) : Xml := .node n [] t []
+
+/-- Point.create_node -/
+def pointNode (tag : String) (x y : Str) (z : Option Str) : Xml :=
+  .node tag [] [] ([leaf "x" x, leaf "y" y] ++ (match z with | some z => [leaf "z" z] | none => []))
+
+/-- RectangleXMLNode.create_rectangle_node: `oc = none` for dynamic-obstacle shapes -/
+def rectangleNode (l w : Str) (oc : Option (Str × Str × Str)) : Xml :=
+  .node "rectangle" [] [] ([leaf "length" l, leaf "width" w] ++
+    (match oc with | some (o, cx, cy) => [leaf "orientation" o, pointNode "center" cx cy none] | none => []))
+
+/-- CircleXMLNode.create_circle_node -/
+def circleNode (r : Str) (c : Option (Str × Str)) : Xml :=
+  .node "circle" [] [] ([leaf "radius" r] ++ (match c with | some (cx, cy) => [pointNode "center" cx cy none] | none => []))
+
+end CR.XmlW
